@@ -68,6 +68,13 @@ def run_sign(ctx, c):
     OID = x.buf(oid)
     # key generation from a tape
     d = dval(c, q, n)
+    if c["d"] == "s1zero":
+        # a private key tied to the one-time key of the signature below so that its second part S1 = (k - H - (S0 + 2^l) d) mod q is 0
+        # (S0 depends on k G, the OID and H only); S1 ranges over {0, ..., q - 1}: the signature is valid and must verify
+        k_ = q - 1 if c["kc"] == "qm1" else 1 if c["kc"] == "one" else int.from_bytes(expand(c["seed"] + "k", n), "little") % (q - 1) + 1
+        H_ = hval(c, "h", l, q)
+        s0_ = int.from_bytes(RB.sign(M, oid, H_, 1, k_)[:n // 2], "little")
+        d = (k_ - int.from_bytes(H_, "little")) * pow(s0_ + (1 << l), -1, q) % q or 1
     tape = mk_tape(c, "rej", q, p, n, d)
     T = x.tape(tape, mode=2)
     dk, Qk = x.out(n), x.out(2 * n)
@@ -114,6 +121,10 @@ def run_sign(ctx, c):
     msig, _ = RB.sign_from_tape(M, oid, H, md, stape + b"\xff" * n)
     if sig.read() != msig:
         raise Fail("bignSign != model (l=%d h=%s d=%s k=%s): %s vs %s" % (l, c["h"], c["d"], c["kc"], sig.read().hex(), msig.hex()))
+    if c["d"] == "s1zero" and md != 1:
+        if msig[n // 2:] != bytes(n):
+            raise RuntimeError("construction of S1 = 0 failed")
+        ctx.cls("sig_with_S1_zero")
     r = x.call("bignVerify", P, OID, len(oid), x.buf(H), sig, Qk)
     if r:
         raise Fail("bignVerify rejects a fresh signature: %s (l=%d h=%s d=%s)" % (ename(r), l, c["h"], c["d"]))
@@ -133,7 +144,7 @@ def run_sign(ctx, c):
         raise Fail("bignSign2 != model (l=%d h=%s t=%s)" % (l, c["h"], c["t"]))
     if x.call("bignVerify", P, OID, len(oid), x.buf(H), sig2, Qk):
         raise Fail("bignVerify rejects a bignSign2 signature")
-    if c["h"] in ("q", "qp1", "max") or c["d"] in ("one", "qm1") or c["rejk"]:
+    if c["h"] in ("q", "qp1", "max") or c["d"] in ("one", "qm1", "s1zero") or c["rejk"]:
         ctx.nontrivial("sign", l, c["h"], c["d"], c["kc"], tuple(c["rejk"])[:2])
     # alterations, judged by the reference verifier
     alt = c["alt"]
@@ -178,7 +189,13 @@ def run_sign(ctx, c):
             raise Fail("bignVerify verdict %s on alteration %s, reference verifier says %s (l=%d)" % (ename(r), alt, "accept" if mv else "reject", l))
     elif oid_ok and not on_curve:
         # x >= p or y >= p must be refused (ERR_BAD_PUBKEY); other off-curve keys: only a random (non crafted) forgery must not verify
-        if r == 0:
+        # (0, 0) is a point of order 2 of another curve: the verifier's sum is then O or (0, 0), and the base point of the standard curves has x = 0 as well,
+        # so for the one-time keys k = 1, q - 1 (R = +-G) and (S1 + H) mod q = 0 the crafted key reproduces S0: a constructed coincidence, not judged
+        # (bign.h: pubkey validity is a partially checked expectation)
+        crafted = alt == "qzero" and k in (1, q - 1)
+        if r == 0 and crafted:
+            ctx.cls("offcurve_crafted_coincidence_not_judged")
+        elif r == 0:
             raise Fail("bignVerify accepts signature under altered public key (%s) that is not a curve point" % alt)
     if changed:
         ctx.nontrivial("alt", l, alt, r == 0)
@@ -195,7 +212,7 @@ def flip(b, bit):
 REJ = st.lists(st.sampled_from(["zero", "q", "qp", "max", "qp1"]), max_size=3)
 S_SIGN = st.fixed_dictionaries({
     "l": st.sampled_from([128, 192, 256]), "seed": st.binary(min_size=1, max_size=4).map(bytes.hex), "oid": st.sampled_from(OIDS),
-    "d": st.sampled_from(["rnd", "rnd", "one", "two", "qm1"]), "h": st.sampled_from(["rnd", "rnd", "zero", "one", "qm1", "q", "qp1", "max"]),
+    "d": st.sampled_from(["rnd", "rnd", "one", "two", "qm1", "s1zero"]), "h": st.sampled_from(["rnd", "rnd", "zero", "one", "qm1", "q", "qp1", "max"]),
     "kc": st.sampled_from(["rnd", "rnd", "one", "qm1"]),
     "rej": st.one_of(REJ, REJ, st.sampled_from([["q"] * 64, ["max"] * 65, ["zero"] * 64])), "rejk": REJ, "t": st.sampled_from([None, 0, 1, 32, 100]),
     "alt": st.sampled_from(["none", "sigbit", "sigbit", "s1pq", "s1q", "s1zero", "rzero", "s0inc", "hbit", "hpq", "oid", "oidbit", "qneg", "qother", "qbit", "qxp", "qzero"]),
@@ -276,6 +293,18 @@ def run_ibs(ctx, c):
     Qb = RB.point_to_octets(M, RB.pubkey_calc(M, d))
     idh = hval(c, "idh", l, q)
     k0 = int.from_bytes(expand(c["seed"] + "k0", n), "little") % (q - 1) + 1
+    H = hval(c, "h", l, q)
+    k = int.from_bytes(expand(c["seed"] + "k", n), "little") % (q - 1) + 1
+    tape = mk_tape(c, "rejk", q, p, n, k)
+    if c["d"] == "ids1zero":
+        # keys tied to the one-time keys so that the identity signature made below has S1 = (k - H - (S0 + 2^l) e) mod q = 0 (B.2.4; S0 depends on k G, the OID,
+        # H0 and H only): identity key e = (k - H) / (S0 + 2^l), and the trusted-party key d = (k0 - e) / (S0' + 2^l) from which exactly this e is extracted.
+        # S1 ranges over {0, ..., q - 1}: the signature is valid and must verify
+        s0i = int.from_bytes(RB.id_sign_from_tape(M, oid, idh, H, 1, tape + b"\xff" * n)[0][:n // 2], "little")
+        e_t = (k - int.from_bytes(H, "little")) * pow(s0i + (1 << l), -1, q) % q
+        s0 = int.from_bytes(RB.sign(M, oid, idh, 1, k0)[:n // 2], "little")
+        d = (k0 - e_t) * pow(s0 + (1 << l), -1, q) % q or 1
+        Qb = RB.point_to_octets(M, RB.pubkey_calc(M, d))
     if c["d"] == "ezero":
         # boundary of B.2.3: a trusted-party key for which the extracted private key is e = (S1 + H0) mod q = k0 - (S0 + 2^l) d = 0
         # (S0 depends on k0 G, the OID and H0 only); e = 0 is an admissible identity key, signing and verification must work with it
@@ -298,9 +327,6 @@ def run_ibs(ctx, c):
         raise RuntimeError("construction of e = 0 failed")
     if int.from_bytes(ipriv.read(), "little") != e or ipub.read() != RB.point_to_octets(M, R):
         raise Fail("bignIdExtract != model (l=%d)" % l)
-    H = hval(c, "h", l, q)
-    k = int.from_bytes(expand(c["seed"] + "k", n), "little") % (q - 1) + 1
-    tape = mk_tape(c, "rejk", q, p, n, k)
     isig = x.out(3 * l // 8)
     r = x.call("bignIdSign", isig, P, OID, len(oid), x.buf(idh), x.buf(H), ipriv, GEN, x.tape(tape, mode=2))
     if r:
@@ -308,6 +334,10 @@ def run_ibs(ctx, c):
     ms, _ = RB.id_sign_from_tape(M, oid, idh, H, e, tape + b"\xff" * n)
     if isig.read() != ms:
         raise Fail("bignIdSign != model (l=%d h=%s)" % (l, c["h"]))
+    if c["d"] == "ids1zero" and d != 1:
+        if ms[n // 2:] != bytes(n):
+            raise RuntimeError("construction of an identity signature with S1 = 0 failed")
+        ctx.cls("idsig_with_S1_zero")
     tt = None if c["t"] is None else expand(c["seed"] + "t", c["t"])
     isig2 = x.out(3 * l // 8)
     r = x.call("bignIdSign2", isig2, P, OID, len(oid), x.buf(idh), x.buf(H), ipriv, x.buf(tt) if tt is not None else None, len(tt) if tt is not None else 0)
@@ -358,13 +388,13 @@ def run_ibs(ctx, c):
     if (r == 0) != (not isinstance(me, str)):
         raise Fail("bignIdExtract verdict %s on an altered signature, model %s" % (ename(r), me if isinstance(me, str) else "accept"))
     ctx.cls("ibs_" + alt, "l%d" % l)
-    ctx.nontrivial("ibs", l, alt, c["h"], c["t"], c["d"] == "ezero")
+    ctx.nontrivial("ibs", l, alt, c["h"], c["t"], c["d"] in ("ezero", "ids1zero"))
     ctx.sample(c)
 
 
 S_IBS = st.fixed_dictionaries({
     "l": st.sampled_from([128, 192, 256]), "seed": st.binary(min_size=1, max_size=4).map(bytes.hex), "oid": st.sampled_from(OIDS),
-    "d": st.sampled_from(["rnd", "rnd", "one", "qm1", "ezero", "s1small"]), "h": st.sampled_from(["rnd", "rnd", "zero", "q", "max"]), "idh": st.sampled_from(["rnd", "rnd", "zero", "max"]),
+    "d": st.sampled_from(["rnd", "rnd", "one", "qm1", "ezero", "s1small", "ids1zero"]), "h": st.sampled_from(["rnd", "rnd", "zero", "q", "max"]), "idh": st.sampled_from(["rnd", "rnd", "zero", "max"]),
     "rejk": REJ, "t": st.sampled_from([None, 0, 1, 32, 100]), "alt": st.sampled_from(["none", "sigbit", "hbit", "idbit", "pubneg", "qneg", "s1q", "vzero"]), "bit": st.integers(0, 2000)})
 
 
